@@ -77,6 +77,16 @@ attribute [simp] Option.isSome_or
   rcases finish_phase cfg s r with h | h <;> simp [h]
 @[simp] theorem finish_ne_wh (cfg : Cfg) (s : St) (r : Result) : ((finish cfg s r).phase = .writingHeaders) = False := by
   rcases finish_phase cfg s r with h | h <;> simp [h]
+@[simp] theorem finishBody_preConn (cfg : Cfg) (s : St) (r : Result) : (finishBody cfg s r).phase.preConn = false := by
+  rcases finishBody_phase cfg s r with h | h <;> simp [h, Phase.preConn]
+@[simp] theorem finishBody_body (cfg : Cfg) (s : St) (r : Result) : (finishBody cfg s r).phase.body = false := by
+  rcases finishBody_phase cfg s r with h | h <;> simp [h, Phase.body]
+@[simp] theorem finishBody_ne_wc (cfg : Cfg) (s : St) (r : Result) : ((finishBody cfg s r).phase = .waitConn) = False := by
+  rcases finishBody_phase cfg s r with h | h <;> simp [h]
+@[simp] theorem finishBody_ne_ah (cfg : Cfg) (s : St) (r : Result) : ((finishBody cfg s r).phase = .awaitingHeaders) = False := by
+  rcases finishBody_phase cfg s r with h | h <;> simp [h]
+@[simp] theorem finishBody_ne_wh (cfg : Cfg) (s : St) (r : Result) : ((finishBody cfg s r).phase = .writingHeaders) = False := by
+  rcases finishBody_phase cfg s r with h | h <;> simp [h]
 theorem preConn_not_body {p : Phase} (h : p.preConn = true) : p.body = false := by
   revert h; cases p <;> simp [Phase.preConn, Phase.body]
 
